@@ -40,6 +40,20 @@ def main(tier):
         jobs.append(('util.VerifC13File', dict(fixlen=fl, params=params, unwind=60, exclude=exclude, timeout_ms=120000, terminal_obligations=())))
     rs, viol = ck.run('files', jobs, bounds={'lines': '0..%d' % K, 'kinds': 'id|title|other|empty|blank per line'})
     ck.triage(viol)
+    jobs = []
+    for k in (0, 1, 2):
+        for kinds in itertools.product((0, 2, 3, 4), repeat=k):
+            params = {'lines': k}
+            fl = {}
+            for i, kd in enumerate(kinds):
+                params['k%d' % i] = kd
+                fl.update({'sp%d' % i: 1, 'val%d' % i: 1, 'tr%d' % i: i % 2})
+            jobs.append(('util.VerifC13CheckMode', dict(fixlen=fl, params=params, unwind=60, timeout_ms=120000, terminal_obligations=())))
+    rs, viol = ck.run('check-mode', jobs, bounds={'lines': '0..2', 'kinds': 'id|other|empty|blank', 'final_newline': 'symbolic', 'github_output': 'symbolic'})
+    ck.triage(viol)
+    jobs = [('util.VerifC13OldValue', dict(fixlen={'a': a, 'b': b}, unwind=60, timeout_ms=120000, terminal_obligations=())) for a in (1, 2, 3) for b in (1, 2)]
+    rs, viol = ck.run('old-values', jobs, bounds={'old_value_len': '1..3 digits (first test), 1..2 digits (second test)'})
+    ck.triage(viol)
     jobs = [('util.VerifC13Line', dict(fixlen={'line': L}, unwind=N + 12, timeout_ms=120000, terminal_obligations=())) for L in range(0, N + 1)]
     rs, viol = ck.run('single-line', jobs, bounds={'line_len': '0..%d' % N})
     ck.triage(viol)
